@@ -227,10 +227,13 @@ class Ctx:
         the methods of the block model and the diagnostic constructors."""
         if (cb.impl_self_adt or "") in ("blockwatch::blocks::Block", "blockwatch::blocks::BlockWithContext", "blockwatch::blocks::FileBlocks",
                                         "blockwatch::blocks::FileSystemImpl", "blockwatch::blocks::PathCheckerImpl",
-                                        "blockwatch::validators::ValidationContext", "blockwatch::Position"):
+                                        "blockwatch::validators::ValidationContext", "blockwatch::Position",
+                                        "blockwatch::validators::Violation"):
             return True
         r = cb.local_ty(0)
-        return "blockwatch::validators::Violation" in r
+        # diagnostic constructors (`create_violation`): they build the Violation themselves. A per-block
+        # helper that merely passes one on (`validate_block -> Result<Option<Violation>>`) is looked through.
+        return "blockwatch::validators::Violation" in r and any(factsmod.callee_matches(t, r"validators::Violation::new$") for _, t in cb.calls())
 
     def views(self, bodies):
         """The given bodies plus, for each plain function among them, its inlined + desugared view
